@@ -723,6 +723,11 @@ class Interp:
             if full in MODULE_ATTRS:
                 return MODULE_ATTRS[full]
             return ModRef(full)
+        if self.ftext is not None:
+            from .extract import module_constant
+            c = module_constant(self.ftext.relpath, name)
+            if isinstance(c, ast.Constant) and isinstance(c.value, (int, str, bool, float)):
+                return c.value
         raise Unsupported("name %s is not modelled" % name)
 
     def module_imports(self):
@@ -1087,6 +1092,8 @@ class Interp:
             raise Unsupported(what)
         if isinstance(v, dict):
             return list(v.keys())
+        if isinstance(v, PObj) and '__iter__' in v.methods:
+            return self.iterate_concrete(self.call(v.methods['__iter__'], [v], {}), what)
         raise Unsupported("%s (%s)" % (what, type(v).__name__))
 
     # -- attribute / subscript
